@@ -1,12 +1,17 @@
 import Hgxv.Model.Wire
 import Hgxv.Model.C03
 import Hgxv.Model.C03Spec
+import Hgxv.Model.C03Full
 /-! Line protocol for C03 (see `harness/c03.py`, functions `op_lines` / `q_line`).  The driver only parses a line into a
 `C03.Op`, calls `C03.step`, and prints the outcome in the canonical (sorted) rendering of the harness.
 
 tokens: edge `1,2,3` | `_`; time `5` | `-1` | `x` (not an integer); weight quanta `6` | `n` (None);
 metadata `k:v+k:v` | `_` ({}) | `n` (None); lists of edges / metadata `;`-separated, `-` = empty list;
-filters: order `-`|int, size `-`|int, up_to `0|1`; window `-` | `a:b` | `bad`. -/
+filters: order `-`|int, size `-`|int, up_to `0|1`; window `-` | `a:b` | `bad`.
+
+Round d: the machine is `C03.fstep` on whole objects (`Obj` = `Store` + incidence table, Model/C03Full.lean).  New lines:
+`setimeta i e t n md`, `attri i e t n f v`, `derive tables|copy i j`, `q i imeta e t n`, `q i allimeta`; `copy i j` is
+`derive copy i j`.  The abstract `Spec` runs beside it on the base calls as before (both routes are its slot copy). -/
 open Wire C03
 
 def edge? (s : String) : Option (List Nat) := listOf? "," "_" nat? s
@@ -106,6 +111,25 @@ def parseOp : List String → Option Op
   | cmd :: i :: rest => do pure (.on (← nat? i) (← parseSOp (cmd :: rest)))
   | _ => none
 
+/-- a line of the full machine; `none` for the second component = the abstract `Spec` does not see the call -/
+def parseFOp : List String → Option (FOp × Option Op)
+  | ["setimeta", i, e, t, n, md] => do
+      pure (.on (← nat? i) (.setInc (← edge? e) (← time? t) (← nat? n) (← md? md)), none)
+  | ["attri", i, e, t, n, f, v] => do
+      pure (.on (← nat? i) (.attrInc (← edge? e) (← time? t) (← nat? n) (← nat? f) (← nat? v)), none)
+  | ["derive", r, i, j] => do
+      let r ← if r = "copy" then some Route.copy else if r = "tables" then some Route.tables else none
+      pure (.derive r (← nat? i) (← nat? j), some (.copy (← nat? i) (← nat? j)))
+  | ["q", i, "imeta", e, t, n] => do pure (.query (← nat? i) (.inc (← edge? e) (← time? t) (← nat? n)), none)
+  | ["q", i, "allimeta"] => do pure (.query (← nat? i) .allInc, none)
+  | toks => do
+      let op ← parseOp toks
+      match op with
+      | .new i w => pure (.new i w, some op)
+      | .on i o => pure (.on i (.base o), some op)
+      | .copy i j => pure (.derive .copy i j, some op)
+      | .query i q => pure (.query i (.base q), some op)
+
 /-! rendering -/
 def insertBy {α} (le : α → α → Bool) (a : α) : List α → List α
   | [] => [a]
@@ -140,23 +164,31 @@ def showAns : Ans → String
   | .counts l => showList "," "-" (fun (p : Int × Nat) => toString p.1 ++ ":" ++ toString p.2) (sortBy (fun a b => a.1 ≤ b.1) l)
   | .hs l => showList "|" "-" (fun (p : Nat × HSpec) => toString p.1 ++ ">" ++ showH p.2) (sortBy (fun a b => a.1 ≤ b.1) l)
 
-def showRes : Res → String
+def showIncs (l : List (IncKey × Meta)) : String :=
+  showList ";" "-" (fun (p : IncKey × Meta) => showKey p.1.1 ++ "^" ++ toString p.1.2 ++ "=" ++ showMd p.2)
+    (sortBy (fun a b => if a.1.1 = b.1.1 then a.1.2 ≤ b.1.2 else keyLe a.1.1 b.1.1) l)
+
+def showFRes : FRes → String
   | .out .ok => "ok"
   | .out .rej => "rej"
-  | .ans a => showAns a
+  | .ans (.base a) => showAns a
+  | .ans (.incs l) => showIncs l
 
-/-- The driver runs the concrete model AND, redundantly, the abstract specification (`C03.specStep`) on the same
-lines; a query that does not expose edge ids must be answered identically by both (this is theorem `C03_refines`,
-re-checked here at run time on every generated line) - otherwise the line is answered `spec-mismatch ...`. -/
-def stepLine (st : State × SpecState) (toks : List String) : (State × SpecState) × String :=
-  match parseOp toks with
+/-- The driver runs the concrete model of the whole object AND, redundantly, the abstract specification
+(`C03.specStep`) on the base calls of the same lines; a base query that does not expose edge ids must be answered
+identically by both (this is theorem `C03_refines` through `C03_full_projection`, re-checked here at run time on every
+generated line) - otherwise the line is answered `spec-mismatch ...`. -/
+def stepLine (st : FState × SpecState) (toks : List String) : (FState × SpecState) × String :=
+  match parseFOp toks with
   | none => (st, "bad-op")
-  | some op =>
-    let r := step st.1 op
-    let sst := specStep st.2 op
-    let out := showRes r.2
-    match op with
-    | .query i q =>
+  | some (op, bop) =>
+    let r := fstep st.1 op
+    let sst := match bop with
+      | some b => specStep st.2 b
+      | none => st.2
+    let out := showFRes r.2
+    match bop with
+    | some (.query i q) =>
       if q.exposesIds then ((r.1, sst), out) else
       let a2 := match AL.get? sst i with
         | none => "rej"
